@@ -135,11 +135,15 @@ fn hletter(j: usize) -> HOp {
         _ => HOp::Reset,
     }
 }
-fn continuations() -> [Vec<Inp>; 3] {
+fn continuations() -> [Vec<Inp>; 5] {
     [
         [2.0, 3.0, 5.0, 4.0, 1.0, 6.0, 2.5, 7.0].iter().map(|&v| letter(v)).collect(),
         [9.0, 7.0, 5.0, 3.0, 1.0, 0.5, 0.25, 8.0].iter().map(|&v| letter_bar(v)).collect(),
         [1.0, 1.0, 1.0, 2.0, 2.0, 2.0, 3.0, 1.0].iter().enumerate().map(|(i, &v)| if i % 2 == 0 { letter(v) } else { letter_bar(v) }).collect(),
+        // the first input after the reset is small, then zero / negative: whatever reference value the first
+        // comparison uses (previous close, seed) must be the constructor's, for any sign and size of that input
+        [0.5, 0.125, 0.75, 3.0, 0.25, 2.0, 0.5, 0.125].iter().map(|&v| letter_bar(v - 0.25)).collect(),
+        [-0.25, -3.0, 0.0, -1.0, 2.0, -0.5, 1.0, -4.0].iter().enumerate().map(|(i, &v)| if i % 2 == 0 { letter_bar(v - 0.25) } else { letter(v) }).collect(),
     ]
 }
 
@@ -173,9 +177,21 @@ fn strategy(cap: usize, long: bool) -> BoxedStrategy<Case> {
         .prop_flat_map(move |k| cfg_for(k, cap, multiplier_any()))
         .prop_flat_map(move |cfg| {
             let n = flush_len(&cfg);
-            (Just(cfg), history_strategy(n, long), vec(inp_finite(), (n + 2)..=(3 * n + 5)), 0usize..8)
+            (Just(cfg), history_strategy(n, long), vec(inp_finite(), (n + 2)..=(3 * n + 5)), 0usize..8, prop_oneof![6 => Just(1.0f64), 1 => Just(1e-3), 1 => Just(1e-9), 1 => Just(-1.0), 1 => Just(0.0), 1 => Just(-1e-4)])
         })
-        .prop_map(|(cfg, history, mut continuation, flat)| {
+        .prop_map(|(cfg, history, mut continuation, flat, unit)| {
+            // the continuation in another unit or sign than the history (and than any constant a reset may
+            // re-install): the first comparison after the reset must use the constructor's reference value
+            if unit != 1.0 {
+                for c in continuation.iter_mut() {
+                    let b = &mut c.bar;
+                    let (h, l) = (b.h * unit, b.l * unit);
+                    b.o *= unit;
+                    b.c *= unit;
+                    b.h = h.max(l);
+                    b.l = h.min(l);
+                }
+            }
             // a flat continuation (every bar identical) or one with a long plateau: constant-window shortcuts
             // consult state that reset() may have left behind
             if flat == 0 {
@@ -196,7 +212,7 @@ fn strategy(cap: usize, long: bool) -> BoxedStrategy<Case> {
 }
 
 pub fn run(g: &mut Global) {
-    g.rule = "exhaustive: all 22 indicators x periods 1..=4 x every history of length 0..=depth over {1, 4, bar 2.5, NaN, bar with volume 1e21, Reset} x 3 fixed continuations of 8 finite inputs; random: proptest histories of Next/Reset (finite, or with NaN/inf/MAX/subnormal fields, or guaranteed-full) followed by a final reset() and an independently drawn finite continuation of n+2..3n+5 inputs. Oracle: the reset instance, a fresh instance, a fresh instance reset twice and a doubly-reset instance agree on every continuation output within 1e-12 relative (NaN = NaN), and period()/multiplier()/Display are unchanged. Non-trivial = at least n+1 inputs since the previous reset before the final reset (window full and wrapped), continuation of at least n+2 inputs that differs from the tail of the history; distinct by hash of (kind, parameters, history, continuation).".into();
+    g.rule = "exhaustive: all 22 indicators x periods 1..=4 x every history of length 0..=depth over {1, 4, bar 2.5, NaN, bar with volume 1e21, Reset} x 5 fixed continuations of 8 finite inputs (two of them opening with small, zero and negative prices); random: proptest histories of Next/Reset (finite, or with NaN/inf/MAX/subnormal fields, or guaranteed-full) followed by a final reset() and an independently drawn finite continuation of n+2..3n+5 inputs (in the history's unit, or scaled by 1e-3, 1e-9, 0, -1, -1e-4). Oracle: the reset instance, a fresh instance, a fresh instance reset twice and a doubly-reset instance agree on every continuation output within 1e-12 relative (NaN = NaN), and period()/multiplier()/Display are unchanged. Non-trivial = at least n+1 inputs since the previous reset before the final reset (window full and wrapped), continuation of at least n+2 inputs that differs from the tail of the history; distinct by hash of (kind, parameters, history, continuation).".into();
     g.assumptions = vec![
         "continuation inputs are finite (DESIGN.md section 4/C04: NaN ordering in Minimum/Maximum after reset is outside the claim)".into(),
         "agreement within 1e-12 relative as the property states; NaN compared equal to NaN".into(),
@@ -209,15 +225,15 @@ pub fn run(g: &mut Global) {
     }
     let per_cfg = offs[depth + 1];
     let conts = continuations();
-    let count = per_cfg * 3 * 4 * 22;
+    let count = per_cfg * 5 * 4 * 22;
     g.exhaustive(
         "enum",
         count,
         &move |i| {
             let h = i % per_cfg;
             let r = i / per_cfg;
-            let cont = conts[(r % 3) as usize].clone();
-            let r = r / 3;
+            let cont = conts[(r % 5) as usize].clone();
+            let r = r / 5;
             let n = (r % 4) as usize + 1;
             let kind: Kind = ALL_KINDS[(r / 4) as usize];
             let d = (0..=depth).find(|&d| h < offs[d + 1]).unwrap();
